@@ -120,11 +120,22 @@ RACE_RE = re.compile(r"WARNING: DATA RACE(.*?)={18}", re.S)
 
 
 def races_in_pkg(stderr):
+    """Race reports attributed to pkg/pow: for every access stack of a report the first frame inside the repository
+    (callees in the standard library skipped) is the access site; the hook shim and the driver's own files do not count."""
     hits = []
     for m in RACE_RE.finditer(stderr):
         blk = m.group(1)
-        frames = re.findall(r"\s(/\S+\.go):(\d+)", blk)
-        own = [f for f in frames if "/pkg/pow/" in f[0] and not f[0].endswith("_test.go") and "zz_verif" not in f[0]]
+        sites = []
+        for acc in re.split(r"\n(?=(?:Read|Write|Previous read|Previous write|Atomic \w+|Previous atomic \w+) at 0x)", blk):
+            if not re.match(r"\s*(?:Read|Write|Previous|Atomic)", acc):
+                continue
+            stack = acc.split("\n\n")[0]
+            fr = re.findall(r"\s(/\S+\.go):(\d+)", stack)
+            inrepo = [f for f in fr if f[0].startswith(vlib.REPO + "/")]
+            if inrepo:
+                sites.append(inrepo[0])
+        own = [f for f in sites if "/pkg/pow/" in f[0] and not f[0].endswith("_test.go") and "zz_verif" not in f[0]
+               and not f[0].endswith("hook_verif.go")]
         if own:
             hits.append(dict(frames=["%s:%s" % f for f in own[:6]], report=blk.strip()[:1500]))
     return hits
